@@ -1,5 +1,5 @@
 (* Properties/C02.v — annotations reach exactly the ancestors; records stay direct (C02) *)
-From HpoV Require Import Model.Base Model.Onto Model.Dump Run.World Run.C02 Proofs.C02P.
+From HpoV Require Import Gen.Consts Model.Base Model.Group Model.Onto Model.Dump Run.World Run.C02 Proofs.C02P Proofs.ClosureP Proofs.LinkP.
 
 (* For every observation that passes the executable statement (evaluated by the check on the real
    crate's observation of every generated ontology, for each of the three kinds separately): *)
@@ -17,6 +17,40 @@ Theorem C02_linked_ids_resolve : forall ts k recs, kind_ok ts k recs = true ->
   forall t, In t ts -> forall g, In g (q_annots k t) -> In g (map da_id recs).
 Proof. exact linked_ids_resolve. Qed.
 
+(* ---- about the Gallina transcription of link_gene_term / link_omim_disease_term /
+   link_orpha_disease_term (Model/Onto.v [link]), for EVERY arena whose ancestor caches are
+   transitive and irreflexive (C01) ---- *)
+
+(* one propagation, with the early exit "already linked => all ancestors linked": whenever it
+   returns (every fuel), only annotation sets of that kind changed, and a term carries an
+   annotation afterwards iff it carried it before or it is the annotation being propagated and the
+   term is the target or one of its cached ancestors.  T is the set of terms on the call stack. *)
+Theorem C02_model_link : forall k g fuel a tid a' T, good k a ->
+  (forall y ty, In y T -> ar_find y a = Some ty -> In tid (t_allp ty)) ->
+  upclosed_except k g T a ->
+  link fuel k a tid g = Ok a' ->
+  frame k a a' /\ good k a' /\
+  (forall id x, has k a' id x <-> has k a id x \/ (x = g /\ In id (ar_keys a) /\ reach a tid id)) /\
+  upclosed_except k g T a'.
+Proof. exact link_spec. Qed.
+
+(* any sequence of propagations (any order, repetitions, any fuel): inherited annotations are
+   exactly "a direct fact at the term or at one of its descendants"; nothing else changes *)
+Theorem C02_model_inherited_exact : forall k fuel facts a a', good k a -> (forall g, upclosed_except k g [] a) ->
+  link_all k fuel facts a = Ok a' ->
+  frame k a a' /\ good k a' /\ (forall g, upclosed_except k g [] a') /\
+  forall id x, has k a' id x <->
+    has k a id x \/ exists d, In (x, d) facts /\ In id (ar_keys a) /\ reach a d id.
+Proof. exact link_all_spec. Qed.
+
+(* the three kinds are framed: propagating kind k rewrites nothing but the kind-k sets *)
+Theorem C02_model_kinds_framed : forall k a a' t', frame k a a' -> In t' (ar_terms a') ->
+  exists t, In t (ar_terms a) /\ t' = set_annots k (t_annots k t') t.
+Proof. exact frame_In_r. Qed.
+
 Print Assumptions C02_inherited_exact.
 Print Assumptions C02_records_wellformed.
 Print Assumptions C02_linked_ids_resolve.
+Print Assumptions C02_model_link.
+Print Assumptions C02_model_inherited_exact.
+Print Assumptions C02_model_kinds_framed.
